@@ -346,6 +346,28 @@ def run_corner(c):
     return r
 
 
+ABC_SAMPLES = [('NoneType', ['none']), ('bool', ['bool', True]), ('int', ['int', 1]), ('float', ['float', 3]), ('str', ['str', [97]]),
+               ('bytes', ['bytes', [1]]), ('list', ['list', []]), ('tuple', ['tuple', []]), ('set', ['set', []]), ('frozenset', ['frozenset', []]),
+               ('dict', ['dict', []]), ('deque', ['deque', []]), ('defaultdict', ['defaultdict', []]), ('OrderedDict', ['ordereddict', []]),
+               ('dict_keys', ['keys', []]), ('dict_values', ['values', []]), ('dict_items', ['items', []]), ('list_iterator', ['iter', []]),
+               ('function', ['lambda']), ('builtin_function', ['builtinfn']), ('object', ['object']), ('type', ['class', 'int']),
+               (['user', [0]], ['inst', [0], 1])]
+
+
+def run_abc_table(c):
+    """isinstance(<sample of every value class>, <runtime origin of every typing generic of the tables>): the ground truth for
+    Base/Ann.v abc_instance, exhaustively"""
+    import typing
+    rows = []
+    for name in U.TNAMES:
+        org = getattr(getattr(typing, name, None), '__origin__', None)
+        if not isinstance(org, type) or name == 'Callable':      # Callable is dispatched by its own checker, never by isinstance
+            continue
+        for cname, v in ABC_SAMPLES:
+            rows.append([name, cname, bool(isinstance(U.render_val(v), org))])
+    return {'rows': rows}
+
+
 _named = {}
 
 
@@ -437,6 +459,8 @@ def main():
                 r = run_varargs(c)
             elif c.get('obs') == 'gclass':
                 r = run_gclass(c)
+            elif c.get('obs') == 'abc_table':
+                r = run_abc_table(c)
             elif c.get('obs') == 'corner':
                 r = run_corner(c)
             elif c.get('obs') == 'named':
